@@ -91,7 +91,12 @@ var profiles = []profile{
 var setHows = []string{"go.RawSet", "go.RawSetInt", "go.RawSetString", "go.RawSetH", "L.RawSet", "L.RawSetInt", "L.SetTable", "L.SetField", "lua.index", "lua.rawset", "lua.field"}
 var getHows = []string{"go.RawGet", "go.RawGetInt", "go.RawGetString", "go.RawGetH", "L.RawGet", "L.RawGetInt", "L.GetTable", "L.GetField", "lua.index", "lua.rawget", "lua.field"}
 
+// farTripped: a far nil store already allocated a huge array part in this run (do not repeat
+// the multi-GB allocation for every later case)
+var farTripped bool
+
 type planner struct {
+	far     bool
 	prelude []Step
 	prof    profile
 	left    int
@@ -160,7 +165,8 @@ func (p *planner) next(r *runner, g *lib.Rand) *Step {
 	}
 	switch g.Pick(p.prof.weights...) {
 	case 0:
-		if !small && g.Chance(2) {
+		if !small && p.far && !farTripped && g.Chance(10) {
+			p.far = false
 			// deleting an absent key far above the array part (must not grow it)
 			k := tv.Int(int64(defaultMai - 1 - g.Intn(1000000)))
 			how := []string{"lua.index", "go.RawSet", "go.RawSetInt", "lua.rawset", "L.SetTable"}[g.Intn(5)]
@@ -231,7 +237,7 @@ func generate(w *lib.Writer, r *lib.Rand, tier string) {
 			prof = profiles[g.Pick(35, 20, 25, 20)]
 			class = prof.name
 		}
-		p := &planner{prof: prof, left: g.Range(lo, hi), finale: finale()}
+		p := &planner{prof: prof, left: g.Range(lo, hi), finale: finale(), far: g.Chance(4)}
 		if in.Mai != defaultMai {
 			p.left = g.Range(10, 40)
 		} else if g.Chance(8) {
